@@ -73,3 +73,33 @@ Theorem C07_lr_terminates_validS_only_refuted : GV.LR.TermSpec.lr_terminates_val
 Proof. exact GV.Properties.LRterm.LRterm_lr_terminates_validS_only_refuted. Qed.
 Print Assumptions C07_lr_terminates_validS_only_refuted.
 
+
+(* ---- "a parse always returns" on deep parse stacks: the native stack the recoverer needs to release its
+   copy of the parse stack (CPCTPlus::recover, /repo 4f40408) ---- *)
+From GV Require C07.DropModel C07.DropSpec C07.DropProofs.
+
+Theorem C07_start_cactus_nodes : GV.C07.DropSpec.start_cactus_nodes_stmt.
+Proof. exact GV.C07.DropProofs.start_cactus_nodes. Qed.
+Print Assumptions C07_start_cactus_nodes.
+
+Theorem C07_drop_recursive_depth : GV.C07.DropSpec.drop_recursive_depth_stmt.
+Proof. exact GV.C07.DropProofs.drop_recursive_depth. Qed.
+Print Assumptions C07_drop_recursive_depth.
+
+Theorem C07_drop_iterative_depth : GV.C07.DropSpec.drop_iterative_depth_stmt.
+Proof. exact GV.C07.DropProofs.drop_iterative_depth. Qed.
+Print Assumptions C07_drop_iterative_depth.
+
+Theorem C07_guarded_drop_depth : GV.C07.DropSpec.guarded_drop_depth_stmt.
+Proof. exact GV.C07.DropProofs.guarded_drop_depth. Qed.
+Print Assumptions C07_guarded_drop_depth.
+
+(* the repaired recoverer needs a constant native stack ... *)
+Theorem C07_recover_drop_depth_bounded : GV.C07.DropSpec.recover_drop_depth_bounded_stmt.
+Proof. exact GV.C07.DropProofs.recover_drop_depth_bounded. Qed.
+Print Assumptions C07_recover_drop_depth_bounded.
+
+(* ... the pinned one a native stack proportional to the parse depth: no stack is large enough *)
+Theorem C07_recover_drop_depth_unbounded_refuted : GV.C07.DropSpec.recover_drop_depth_unbounded_refuted_stmt.
+Proof. exact GV.C07.DropProofs.recover_drop_depth_unbounded_refuted. Qed.
+Print Assumptions C07_recover_drop_depth_unbounded_refuted.
